@@ -14,6 +14,7 @@
 #include <vector>
 #include <set>
 #include <string>
+#include <cctype>
 #include <type_traits>
 #include <utility>
 #include <cstring>
@@ -30,6 +31,9 @@
 
 const char *verif_harness = "qs_conc";
 using namespace verif;
+// offline() of an agent that holds a deferred grace period is refused by a documented TODO assertion; it is recognised by the word
+// "deferred" in the asserted expression, however the flag is spelled (_qs_deferred, deferred_bit, ...)
+static bool mentions_deferred(const std::string &m) { std::string l; for(char ch : m) l += (char)tolower((unsigned char)ch); return l.find("deferred") != std::string::npos; }
 void verif_case_reset() { vclock::reset(); }
 
 namespace {
@@ -181,7 +185,7 @@ void verif_case(Ctx &c) {
 					default: { mark_quiescent(a);      // going offline counts as quiescent
 						{ dsched::Ignore ig; w.in_qs[a] = 1; }       // inside offline(): quiescent from here on
 						try { ag[a]->offline(); { dsched::Ignore ig; w.online[a] = false; w.in_qs[a] = 0; } mark_quiescent(a); }
-						catch(Panic &p) { { dsched::Ignore ig; w.in_qs[a] = 0; } if(p.msg.find("_qs_deferred") != std::string::npos) { dsched::Ignore ig; saw_deferred_discard = true; } else throw; }
+						catch(Panic &p) { { dsched::Ignore ig; w.in_qs[a] = 0; } if(mentions_deferred(p.msg)) { dsched::Ignore ig; saw_deferred_discard = true; } else throw; }
 						break; }
 					}
 				}
